@@ -260,6 +260,8 @@ def pg (fn : String) (a : List String) : Option String := do
   | "o.c09.doc", args => some (if (args.getLast?.getD "").startsWith "faithful" then "holds" else "FAILS")
   | "o.c09.known", args => some (if (args.getLast?.getD "").startsWith "faithful" then "holds" else "FAILS")
   | "c19.origin", _ => some "same"            -- C19_equal_partial: both paths assemble the same importers and call the same parser
+  | "c19.yaml", _ => some "same"
+  | "o.c19.yaml", args => some (if (args.getLast?.getD "").startsWith "same" then "holds" else "FAILS")
   | "o.c19.origin", args => some (if (args.getLast?.getD "").startsWith "same" then "holds" else "FAILS")
   | "c02.closure", _ => some "closed"         -- protogen's accepted headers: see DESIGN.md C02 (model: header parser + option round trip)
   | "c02.known", _ => some "closed"
@@ -291,6 +293,8 @@ def pg (fn : String) (a : List String) : Option String := do
   | "o.c13.dry", args => some (if (args.getLast?.getD "").startsWith "same" then "holds" else "FAILS")
   | "c10.schema", _ => some "same"     -- C10a: the schema and the conf of a sheet and of its transposed form coincide
   | "o.c10.schema", args => some (if (args.getLast?.getD "").startsWith "same" then "holds" else "FAILS")
+  | "c17.docfuzz", _ => some "returned"
+  | "o.c17.docfuzz", [_, obs] => some (if obs == "returned" then "holds" else "FAILS")
   | "o.c17.fuzz", [_, obs] => some (if obs == "returned" then "holds" else "FAILS")
   | _, _ => none
 
